@@ -6,7 +6,9 @@ import (
 )
 
 // C37 (remote side): the initialisation request carrying the merged
-// configuration of accepted parts passes the remote endpoint's own request
+// configuration of an accepted session (parts accepted one by one and the
+// merged configuration valid - the conclusion of harness "accepted", which
+// runs the real creation gate) passes the remote endpoint's own request
 // validation.  Only the permissions group (the one cross-part dependency) and
 // the endpoint-overridable scan mode are symbolic here; the full field
 // sweep is harness "accepted" in package synchronization.
@@ -29,23 +31,24 @@ func VerifC37RemoteRequest() {
 	session := verifC37RemotePart("session.")
 	specific := verifC37RemotePart("specific.")
 	alpha := vBool()
+	// What session creation establishes (harness "accepted" runs the real
+	// creation gate and asserts the third line as its conclusion).
 	vAssume(session.EnsureValid(false) == nil)
 	vAssume(specific.EnsureValid(true) == nil)
+	merged := synchronization.MergeConfigurations(session, specific)
+	vAssume(merged.EnsureValid(false) == nil)
 	vCover("accepted")
-
-	class := ""
-	if vAnd(specific.DefaultFileMode&0111 != 0, vOr(session.PermissionsMode == core.PermissionsMode_PermissionsModeDefault, session.PermissionsMode == core.PermissionsMode_PermissionsModePortable)) {
-		class = "[endpoint-specific executable file mode, portable session] "
-		vNote("endpoint-specific DefaultFileMode with session-level permissions mode: the endpoint-specific part is validated without the session's (effective) permissions mode, so executable bits pass there, while the merged configuration is validated in portable mode")
-	} else {
-		vNote("initialisation request built from accepted parts is rejected by the remote endpoint")
+	if specific.DefaultFileMode&0111 != 0 {
+		vCover("endpoint-executable-file-mode")
 	}
+
+	vNote("initialisation request built from the effective configuration of an accepted session is rejected by the remote endpoint")
 	request := &InitializeSynchronizationRequest{
 		Session:       "sync_0123456789abcdefghijklmnopqrstuvwxyzABCDEFGHIJKLMNOPQRSTUVWXYZ",
 		Version:       synchronization.Version_Version1,
 		Root:          "/root",
-		Configuration: synchronization.MergeConfigurations(session, specific),
+		Configuration: merged,
 		Alpha:         alpha,
 	}
-	vAssert(request.ensureValid() == nil, class+"remote endpoint accepts the initialisation request for accepted parts")
+	vAssert(request.ensureValid() == nil, "remote endpoint accepts the initialisation request for the effective configuration of an accepted session")
 }
